@@ -1,5 +1,5 @@
 #!/bin/bash
-# usage: seedtest.sh <worktree> <id> <check ids...>
+# usage: seedtest.sh <worktree> <id> <check ids...>      (SEED_VERIF=<clone of /verif to run the checks from>, default /verif)
 # Confirms a seeded change (tests pass with it, demo fails with it and passes without it), then runs the given
 # checks against the changed tree (PCV_REPO=<worktree>) and stores everything under /verif/seeded/<id>/.
 wd=$1; id=$2; shift 2
@@ -30,10 +30,10 @@ rm -rf $wd/_b0
 echo "tests: $tests | demo exit with change: $with | without: $without" | tee -a $log
 res=""
 for c in "$@"; do
-  r=$(cd /verif && PCV_REPO=$wd timeout 3600 ./check $c --tier quick 2>/dev/null | grep -E "^(OK|VIOLATION|KNOWN)" | head -3 | tr '\n' ';')
+  r=$(cd ${SEED_VERIF:-/verif} && PCV_REPO=$wd timeout 3600 ./check $c --tier quick 2>/dev/null | grep -E "^(OK|VIOLATION|KNOWN)" | head -3 | tr '\n' ';')
   echo "check $c: $r" | tee -a $log
   res="$res $c=[${r:0:160}]"
-  mkdir -p $out/replays; cp /verif/evidence/replay/$c-0.json $out/replays/ 2>/dev/null
+  mkdir -p $out/replays; cp ${SEED_VERIF:-/verif}/evidence/replay/$c-0.json $out/replays/ 2>/dev/null
 done
 python3 - "$out" "$id" "$tests" "$with" "$without" "$res" <<'PY'
 import json, sys
